@@ -672,6 +672,7 @@ func (s *levelsController) subcompact(it y.Iterator, kr keyRange, cd compactDef,
 			discardTs = gcMax
 		}
 	}
+	verifPoint("subcompact.discardTs", discardTs, map[bool]uint64{false: 0, true: 1}[hasOverlap])
 
 	// Try to collect stats so that we can inform value log about GC. That would help us find which
 	// value log file should be GCed.
@@ -1446,6 +1447,7 @@ func (s *levelsController) runCompactDef(id, l int, cd compactDef) (err error) {
 	if len(cd.splits) == 0 {
 		cd.splits = append(cd.splits, keyRange{})
 	}
+	verifCompactDef(&cd)
 
 	// Table should never be moved directly between levels,
 	// always be rewritten to allow discarding invalid versions.
@@ -1454,6 +1456,7 @@ func (s *levelsController) runCompactDef(id, l int, cd compactDef) (err error) {
 	if err != nil {
 		return err
 	}
+	verifNewTables(&cd, newTables)
 	defer func() {
 		// Only assign to err, if it's not already nil.
 		if decErr := decr(); err == nil {
